@@ -84,6 +84,13 @@ def build(ctx):
           ('R16', r'DISPENSO_TSAN_ANNOTATE_HAPPENS_(?:BEFORE|AFTER)\(&refCount_\);', '/* tsan annotation */')]
     ctx.emit('Fut_incRefCount.body.inc', r.function(F, r'void\s+incRefCount\s*\(\s*\)', within=CLS), subs=opt(RC), must_fire=['R7'])
     ctx.emit('Fut_decRefCountMaybeDestroy.body.inc', r.function(F, r'void\s+decRefCountMaybeDestroy\s*\(\s*\)', within=CLS), subs=opt(RC), must_fire=['R7', 'R17'])
+    # the Future handle: copy / move / destructor of FutureBase (which handle owns a reference)
+    FBC = r'class\s+FutureBase\s*(?=\{)'
+    FB = [('R17', r'impl_->decRefCountMaybeDestroy\(\);', 'G_dec(self->impl_);'), ('R17', r'impl_->incRefCount\(\);', 'G_inc(self->impl_);'),
+          ('R11', r'\bf\.impl_\b', 'f->impl_'), ('R11', r'(?<![\w.>])impl_\b', 'self->impl_'), ('R2', r'\bnullptr\b', '0')]
+    ctx.emit('FB_copy.body.inc', r.function(F, r'void\s+copy\s*\(\s*const\s+FutureBase&\s+f\s*\)', within=FBC), subs=opt(FB), must_fire=['R17', 'R11'])
+    ctx.emit('FB_move.body.inc', r.function(F, r'void\s+move\s*\(\s*FutureBase&&\s+f\s*\)\s*noexcept', within=FBC), subs=opt(FB), must_fire=['R17', 'R11'])
+    ctx.emit('FB_dtor.body.inc', r.function(F, r'~FutureBase\s*\(\s*\)', within=FBC), subs=opt(FB), must_fire=['R17', 'R11'])
     S = 'specs/c18_future.c'
     rp = dict(prog='replay/c18_replay.cpp', args=lambda ce, u: [], no_rlimit=True)
     units = [Unit('FutureImplBase::run(int)', 'cbmc', S, 'Fut_run', loop_contracts=True, expect=[r'postcondition\.3', r'G_runFunc\.assertion', r'loop_invariant|loop_step'], timeout=300, replay=rp),
@@ -95,4 +102,6 @@ def build(ctx):
              Unit('FutureImplBase::run()', 'cbmc', S, 'Fut_run0', replace=['Fut_run'], expect=[r'postcondition'], timeout=300, replay=rp),
              Unit('FutureImplBase::incRefCount', 'cbmc', 'specs/c18_refcount.c', 'Fut_incRefCount', expect=[r'postcondition'], timeout=300, replay=rp),
              Unit('FutureImplBase::decRefCountMaybeDestroy', 'cbmc', 'specs/c18_refcount.c', 'Fut_decRefCountMaybeDestroy', expect=[r'postcondition', r'G_dealloc\.assertion'], timeout=300, replay=rp)]
+    units += [Unit('FutureBase::' + n, 'cbmc', 'specs/c18_refcount.c', fn, defines={'C18_HANDLES': '1'}, expect=[r'postcondition'], timeout=300, replay=rp)
+              for n, fn in (('copy', 'FB_copy'), ('move', 'FB_move'), ('~FutureBase', 'FB_dtor'))]
     return units
